@@ -34,6 +34,9 @@ TEMPLATES = [
     ('[C:1][C:2][Cl:3]', '[A:1][A:2]', 'delete terminal of chain'),
     ('[C:1][Cl,Br:2]', '[A:1][I:2]', 'list element replaced'),
     ('[N:1][C:2]=[O:3]', '[A:1][A:2]=[S:3]', 'three atoms one changed'),
+    ('[C:1][C:2]Br', '[A:1][A:2][O;M]', 'two named carbons, new atom'),
+    ('[C:1][C:2][Br:3]', '[A:1][A:2][A:3]', 'identity on three atoms'),
+    ('[C:1]=[C:2][C:3]Br', '[A:1]=[A:2][A:3]', 'named double bond kept'),
 ]
 
 
@@ -129,11 +132,37 @@ def stereo_untouched(m, p, touched):
         env = sorted(x for x in m._bonds[n] if m.atom(x).atomic_number != 1)
         if m._translate_tetrahedron_sign(n, env) != p._translate_tetrahedron_sign(n, env):
             return 'configuration of an untouched centre changed'
+    # double bonds: both ends and all four substituent positions survive with the same neighbours and the bond stays double -> same label, same geometry
+    for a, b, bd in m.bonds():
+        if bd.stereo is None or bd.order != 2:
+            continue
+        if a not in p._atoms or b not in p._atoms or b not in p._bonds[a] or p._bonds[a][b].order != 2:
+            continue
+        if set(m._bonds[a]) != set(p._bonds[a]) or set(m._bonds[b]) != set(p._bonds[b]):
+            continue
+        if any(m._bonds[x][y].order != p._bonds[x][y].order for x in (a, b) for y in m._bonds[x]):
+            continue
+        if any(m.atom(y).atomic_symbol != p.atom(y).atomic_symbol for x in (a, b) for y in m._bonds[x]):
+            continue
+        pb = p._bonds[a][b]
+        if pb.stereo is None:
+            ts = p._stereo_cis_trans_terminals.get(a)
+            if ts is not None and (ts in p.chiral_cis_trans or ts[::-1] in p.chiral_cis_trans):
+                return 'cis/trans label of an unchanged double bond lost'
+            continue
+        n1 = min(x for x in m._bonds[a] if x != b)
+        n2 = min(x for x in m._bonds[b] if x != a)
+        try:
+            if m._translate_cis_trans_sign(a, b, n1, n2) != p._translate_cis_trans_sign(a, b, n1, n2):
+                return 'geometry of an unchanged double bond changed'
+        except KeyError:
+            continue
     return None
 
 
 MOLS = ['CCO', 'CCBr', 'BrCCBr', 'CC(Br)CO', 'COC', 'CCOCC', 'CC(O)N', 'CCN', 'C=CCO', 'CC(=O)N', 'NC(C)=O', 'CCCCl', 'ClCCBr', 'C[C@H](OC)CBr', 'C[C@H](N)CO', 'OCC1CC1', 'C1COCC1', 'CCO.CN',
-        'BrC(Br)C', 'CC(C)(C)O', 'OCCO', 'c1ccccc1CBr', 'NCCO', 'C/C=C/CBr', 'CC(N)=O.CO', 'CCC(Cl)CC', 'N[C@@H](C)C(=O)O', 'O=C(N)c1ccccc1', 'CNC(C)=O', 'COC(C)OC']
+        'BrC(Br)C', 'CC(C)(C)O', 'OCCO', 'c1ccccc1CBr', 'NCCO', 'C/C=C/CBr', 'CC(N)=O.CO', 'CCC(Cl)CC', 'N[C@@H](C)C(=O)O', 'O=C(N)c1ccccc1', 'CNC(C)=O', 'COC(C)OC',
+        'BrC/C=C/C', 'C/C=C\\CBr', 'BrC/C=C\\C', 'C/C=C/C(Br)C', 'C/C(=C\\C)CBr', 'C/C=C/C=C/CBr', 'C[C@H](F)/C=C/CBr']
 
 
 def run_transformer(shard):
@@ -645,7 +674,7 @@ RETRO_NAMES = ['amidation', 'aryl_amination', 'mitsunobu', 'sonogashira', 'suzuk
 
 
 def plan(tier, seed):
-    return [Stage('synthetic Transformer templates vs edit model', run_transformer, [(k, 18, tier) for k in range(18)], '%d templates (one per patcher branch) x %d molecules x 3 numberings x every match' % (len(TEMPLATES), len(MOLS))),
+    return [Stage('synthetic Transformer templates vs edit model', run_transformer, [(k, 21, tier) for k in range(21)], '%d templates (one per patcher branch) x %d molecules x 3 numberings x every match' % (len(TEMPLATES), len(MOLS))),
             Stage('multi-reactant Reactor', run_reactor, [(k, 4, tier) for k in range(4)], '4 reactions x 6 reactant pairs x spectators x all reactant orders x renumbering x one_shot on/off; colliding atom numbers'),
             Stage('built-in deprotection templates', run_builtin, [(k, 16, tier) for k in range(16)], 'every deprotection group + apply_all x protected molecules x 2 numberings: unique numbers, valence validity, numbering independence'),
             Stage('synthetic multi-reactant Reactor vs edit model', run_reactor_model, [0], '4 reactions x 12 ordered reactant pairs x spectator x automorphism filter: set of reactions = edit model over every combination of matches'),
@@ -669,5 +698,5 @@ def replay(rec):
     elif ' + ' in case:
         accs = [run_reactor((k, 4, 'quick')) for k in range(4)]
     else:
-        accs = [run_transformer((k, 18, 'quick')) for k in range(18)]
+        accs = [run_transformer((k, 21, "quick")) for k in range(21)]
     return [f for a in accs for f in a.fails if f['key'] == key]
